@@ -67,6 +67,7 @@ type SpecFn struct {
 	Body    Expr
 	Src     string
 	Rec     bool
+	Uninterp bool
 	Reads   []string // heap names read (filled on first translation)
 	File    string
 	Line    int
@@ -105,7 +106,7 @@ type ContractSet struct {
 var clauseKeywords = map[string]bool{
 	"func": true, "spec": true, "extern": true, "iface": true, "closure": true, "requires": true, "ensures": true,
 	"loop": true, "modifies": true, "inline": true, "noinline": true, "trusted": true, "pure": true, "lemma": true,
-	"axiom": true, "ghost": true, "type": true, "opaque": true, "noreturn": true, "replay": true, "recspec": true,
+	"axiom": true, "ghost": true, "type": true, "opaque": true, "noreturn": true, "replay": true, "recspec": true, "uspec": true,
 }
 
 var propsRe = regexp.MustCompile(`^\[((?:C[0-9]+)(?:\s*,\s*C[0-9]+)*)\]\s*`)
@@ -360,6 +361,23 @@ func (cs *ContractSet) LoadFile(path, pkgPath string) {
 			if cur != nil {
 				cur.Replay = rest
 			}
+		case "uspec":
+			// uspec name(a T, b T) R     -- uninterpreted spec function (used by stated contracts)
+			i := strings.Index(rest, "(")
+			j := strings.LastIndex(rest, ")")
+			if i < 0 || j < i {
+				cs.errf(path, ll.line, "bad uspec declaration %q", rest)
+				continue
+			}
+			sf := &SpecFn{Name: strings.TrimSpace(rest[:i]), Pkg: pkgPath, Result: strings.TrimSpace(rest[j+1:]), Uninterp: true, File: path, Line: ll.line}
+			for _, p := range strings.Split(rest[i+1:j], ",") {
+				f := strings.Fields(strings.TrimSpace(p))
+				if len(f) == 2 {
+					sf.Params = append(sf.Params, QVar{f[0], f[1]})
+				}
+			}
+			cs.Specs[sf.Name] = sf
+			cur = nil
 		case "spec", "recspec":
 			// spec name(a T, b T) R = expr
 			i := strings.Index(rest, "(")
